@@ -41,6 +41,8 @@ func main() {
 		}
 	case "discover":
 		os.Exit(cmdDiscover(os.Args[2:]))
+	case "sweep":
+		os.Exit(cmdSweep(os.Args[2:]))
 	case "selftest":
 		if len(os.Args) < 3 {
 			usage()
@@ -231,4 +233,49 @@ func jsonField(b []byte, name string) string {
 		sb.WriteByte(s[i])
 	}
 	return sb.String()
+}
+
+// cmdSweep loads the repository once and runs the rules of every registered property on it, printing one line per
+// failing or undecided obligation. It is a development aid for trying many variants of the tree quickly (mutation
+// sweeps); it writes no evidence and is not registered in the manifest.
+func cmdSweep(args []string) int {
+	fs := flag.NewFlagSet("sweep", flag.ExitOnError)
+	repo := fs.String("repo", "", "repository directory")
+	dump := fs.String("dump", "", "print every obligation of this rule (e.g. C08.L1)")
+	fs.Parse(args)
+	dir := repoDir(*repo)
+	p, err := loadProg(dir, defaultConfig)
+	if err != nil {
+		fmt.Printf("BROKEN load: %v\n", err)
+		return 2
+	}
+	theClosures = buildClosureInfo(p)
+	for _, id := range sortedProps() {
+		spec := registry[id]
+		func() {
+			defer func() {
+				if e := recover(); e != nil {
+					fmt.Printf("PANIC %s: %v\n", id, e)
+				}
+			}()
+			r := newRun(id, p)
+			spec.Rules(r)
+			for _, rr := range r.Rules {
+				if len(rr.Obs) < rr.Floor {
+					fmt.Printf("FLOOR %s.%s %d<%d\n", id, rr.ID, len(rr.Obs), rr.Floor)
+				}
+				for _, o := range rr.Obs {
+					if *dump == id+"."+rr.ID {
+						fmt.Printf("OB %v %s @ %s | %s\n", o.OK, o.Key, o.Pos, o.Detail)
+					}
+					if o.Undecided {
+						fmt.Printf("UNDEC %s.%s %s | %s\n", id, rr.ID, o.Key, o.Detail)
+					} else if !o.OK {
+						fmt.Printf("FAIL %s.%s %s @ %s\n", id, rr.ID, o.Key, o.Pos)
+					}
+				}
+			}
+		}()
+	}
+	return 0
 }
